@@ -20,7 +20,7 @@ import (
 	"verifextract/ex"
 )
 
-func main() { ex.Main([]string{"ParserTable.lean"}, gen) }
+func main() { ex.Main([]string{"ParserTable.lean", "ParserActs.lean"}, gen) }
 
 var stateNames = map[string]bool{
 	"ground": true, "escape": true, "escapeIntermediate": true, "csiEntry": true, "csiParam": true,
@@ -326,6 +326,7 @@ func gen(c *ex.Ctx) {
 	if f == nil {
 		return
 	}
+	genActs(c, f) // Gen/ParserActs.lean: written first and unconditionally (it degrades, never fails)
 	g := &gctx{c: c}
 	var sb strings.Builder
 	sb.WriteString("import VaxisModel.Model.ParserTable\n\nnamespace VaxisModel.Gen.ParserTable\nopen VaxisModel.Model.ParserTable\n\n")
@@ -562,4 +563,468 @@ func gen(c *ex.Ctx) {
 	sb.WriteString("]\n\n")
 	sb.WriteString("end VaxisModel.Gen.ParserTable\n")
 	c.Write("ParserTable.lean", sb.String())
+}
+
+// ---------------------------------------------------------------------------------------------
+// Gen/ParserActs.lean: the bodies of the action methods as statement skeletons (vocabulary and
+// interpreter: Model/ParserActs.lean; theorems: Props/C02Acts.lean).  Nothing here fails the
+// extractor: a statement outside the vocabulary becomes `.unknown "<source>"` and is listed in
+// `unrecognised` (acts_fully_recognised requires that list to be empty), a missing method or an
+// unexpected signature becomes a one-statement body `[.unknown …]`.
+// ---------------------------------------------------------------------------------------------
+
+type actx struct {
+	c     *ex.Ctx
+	fn    string
+	unrec []string
+}
+
+func (a *actx) src(n ast.Node) string { return norm(a.c.Src(n)) }
+
+func clip(s string) string {
+	if len(s) > 160 {
+		return s[:160] + "…"
+	}
+	return s
+}
+
+// unknown records a statement that is not in the vocabulary and returns `ctor "<source>"`.
+func (a *actx) unknown(ctor string, n ast.Node) string {
+	s := clip(a.src(n))
+	a.unrec = append(a.unrec, a.fn+" ("+a.c.Pos(n)+"): "+s)
+	return "(" + ctor + " " + ex.LeanStr(s) + ")"
+}
+
+var actFields = map[string]string{
+	"p.intermediate": ".intermediate", "p.params": ".params", "p.oscData": ".oscData",
+	"p.apcData": ".apcData", "p.dcs.Data": ".dcsData",
+}
+var exitFns = map[string]string{"p.oscEnd": ".oscEnd", "p.unhook": ".unhook", "p.apcUnhook": ".apcUnhook"}
+var seqVars = map[string]string{"esc": ".esc", "csi": ".csi", "p.dcs": ".dcs"}
+var seqTypes = map[string]string{"esc": "ESC", "csi": "CSI"}
+
+// intLit: an integer or character literal → value.
+func intLit(e ast.Expr) (int64, bool) {
+	bl, ok := e.(*ast.BasicLit)
+	if !ok {
+		return 0, false
+	}
+	switch bl.Kind {
+	case token.INT:
+		n, err := strconv.ParseInt(bl.Value, 0, 64)
+		return n, err == nil
+	case token.CHAR:
+		v, _, _, err := strconv.UnquoteChar(bl.Value[1:len(bl.Value)-1], '\'')
+		return int64(v), err == nil
+	}
+	return 0, false
+}
+
+// emptyRuneSlice: `make([]rune, 0, n)` (any capacity) or `[]rune{}`.
+func (a *actx) emptyRuneSlice(e ast.Expr) bool {
+	if a.src(e) == "[]rune{}" {
+		return true
+	}
+	call, ok := e.(*ast.CallExpr)
+	if !ok || a.src(call.Fun) != "make" || len(call.Args) != 3 || a.src(call.Args[0]) != "[]rune" || a.src(call.Args[1]) != "0" {
+		return false
+	}
+	_, ok = intLit(call.Args[2])
+	return ok
+}
+
+// compLit: `T{K1: v1, …}` → type name and the key/value expressions.
+func (a *actx) compLit(e ast.Expr) (string, map[string]ast.Expr, bool) {
+	cl, ok := e.(*ast.CompositeLit)
+	if !ok || cl.Type == nil {
+		return "", nil, false
+	}
+	kv := map[string]ast.Expr{}
+	for _, el := range cl.Elts {
+		x, ok := el.(*ast.KeyValueExpr)
+		if !ok {
+			return "", nil, false
+		}
+		k := a.src(x.Key)
+		if _, dup := kv[k]; dup {
+			return "", nil, false
+		}
+		kv[k] = x.Value
+	}
+	return a.src(cl.Type), kv, true
+}
+
+// isSeqLit: `T{Final: r}`.
+func (a *actx) isSeqLit(e ast.Expr, typ string) bool {
+	t, kv, ok := a.compLit(e)
+	return ok && t == typ && len(kv) == 1 && kv["Final"] != nil && a.src(kv["Final"]) == "r"
+}
+
+// loopOp: a statement of csiDispatch's decoder (inside or outside the loop).
+func (a *actx) loopOp(s ast.Stmt) (string, bool) {
+	as, ok := s.(*ast.AssignStmt)
+	if !ok || len(as.Lhs) != 1 || len(as.Rhs) != 1 {
+		return "", false
+	}
+	lhs, rhs := a.src(as.Lhs[0]), a.src(as.Rhs[0])
+	switch as.Tok {
+	case token.ASSIGN, token.DEFINE:
+		def := as.Tok == token.DEFINE
+		switch {
+		case !def && lhs == "param" && rhs == "append(param, ps)":
+			return ".appendParamPs", true
+		case !def && lhs == "csi.Parameters" && rhs == "append(csi.Parameters, param)":
+			return ".appendParamsParam", true
+		case lhs == "param" && rhs == "p.paramPool.Get()[:0]":
+			return ".newParam", true
+		case !def && lhs == "csi.Parameters" && rhs == "p.paramListPool.Get()[:0]":
+			return ".newParams", true
+		case lhs == "ps" && rhs == "0":
+			return ".psZero", true
+		}
+	case token.MUL_ASSIGN:
+		if k, ok := intLit(as.Rhs[0]); ok && lhs == "ps" {
+			return fmt.Sprintf("(.psMulConst %d)", k), true
+		}
+	case token.ADD_ASSIGN:
+		if be, ok := as.Rhs[0].(*ast.BinaryExpr); ok && lhs == "ps" && be.Op == token.SUB && a.src(be.X) == "int(b)" {
+			if off, ok := intLit(be.Y); ok {
+				return fmt.Sprintf("(.psAddDigit 0x%02X)", off), true
+			}
+		}
+	}
+	return "", false
+}
+
+func (a *actx) loopOps(list []ast.Stmt) string {
+	var ops []string
+	for _, s := range list {
+		if o, ok := a.loopOp(s); ok {
+			ops = append(ops, o)
+		} else {
+			ops = append(ops, a.unknown("LoopOp.unknown", s))
+		}
+	}
+	return leanList(ops)
+}
+
+// paramLoop: `for i := 0; i < len(p.params); i += 1 { b := p.params[i]; switch b {…} }`
+// (or `i++`, or `for _, b := range p.params { switch b {…} }`).
+func (a *actx) paramLoop(s ast.Stmt) (string, bool) {
+	var body []ast.Stmt
+	switch x := s.(type) {
+	case *ast.ForStmt:
+		if x.Init == nil || x.Cond == nil || x.Post == nil || a.src(x.Init) != "i := 0" || a.src(x.Cond) != "i < len(p.params)" {
+			return "", false
+		}
+		if post := a.src(x.Post); post != "i += 1" && post != "i++" {
+			return "", false
+		}
+		if len(x.Body.List) != 2 || a.src(x.Body.List[0]) != "b := p.params[i]" {
+			return "", false
+		}
+		body = x.Body.List[1:]
+	case *ast.RangeStmt:
+		if x.Key == nil || x.Value == nil || x.Tok != token.DEFINE || a.src(x.Key) != "_" || a.src(x.Value) != "b" || a.src(x.X) != "p.params" || len(x.Body.List) != 1 {
+			return "", false
+		}
+		body = x.Body.List
+	default:
+		return "", false
+	}
+	sw, ok := body[0].(*ast.SwitchStmt)
+	if !ok || sw.Init != nil || sw.Tag == nil || a.src(sw.Tag) != "b" {
+		return "", false
+	}
+	// labels must be literals (checked before anything is recorded as unknown)
+	for _, cs := range sw.Body.List {
+		for _, e := range cs.(*ast.CaseClause).List {
+			if _, ok := intLit(e); !ok {
+				return "", false
+			}
+		}
+	}
+	var cases []string
+	dflt, seenDflt := "[]", false
+	for _, cs := range sw.Body.List {
+		cc := cs.(*ast.CaseClause)
+		ops := a.loopOps(cc.Body)
+		if cc.List == nil {
+			if seenDflt {
+				return "", false
+			}
+			dflt, seenDflt = ops, true
+			continue
+		}
+		for _, e := range cc.List {
+			v, _ := intLit(e)
+			cases = append(cases, fmt.Sprintf("(0x%02X, %s)", v, ops))
+		}
+	}
+	return fmt.Sprintf("(.paramLoop\n      %s\n      %s)", leanList(cases), dflt), true
+}
+
+// hookOp: a statement of the body of hook's range loop.
+func (a *actx) hookOp(s ast.Stmt) (string, bool) {
+	switch x := s.(type) {
+	case *ast.IfStmt:
+		if x.Init != nil || x.Else != nil || len(x.Body.List) != 2 {
+			return "", false
+		}
+		switch a.src(x.Cond) {
+		case `param == ""`:
+			as, ok := x.Body.List[0].(*ast.AssignStmt)
+			if !ok || as.Tok != token.ASSIGN || len(as.Lhs) != 1 || len(as.Rhs) != 1 || a.src(as.Lhs[0]) != "params" || a.src(x.Body.List[1]) != "continue" {
+				return "", false
+			}
+			call, ok := as.Rhs[0].(*ast.CallExpr)
+			if !ok || a.src(call.Fun) != "append" || len(call.Args) != 2 || a.src(call.Args[0]) != "params" {
+				return "", false
+			}
+			if v, ok := intLit(call.Args[1]); ok {
+				return fmt.Sprintf("(.ifEmptyAppendContinue %d)", v), true
+			}
+		case "err != nil":
+			if strings.HasPrefix(a.src(x.Body.List[0]), "p.emit(fmt.Errorf(") && a.src(x.Body.List[1]) == "return" {
+				return ".ifErrEmitReturn", true
+			}
+		}
+	case *ast.AssignStmt:
+		switch a.src(x) {
+		case "val, err := strconv.Atoi(param)":
+			return ".atoi", true
+		case "params = append(params, val)":
+			return ".appendVal", true
+		}
+	}
+	return "", false
+}
+
+// hookLoop: `for _, param := range paramStr { … }`.
+func (a *actx) hookLoop(s ast.Stmt) (string, bool) {
+	x, ok := s.(*ast.RangeStmt)
+	if !ok || x.Key == nil || x.Value == nil || x.Tok != token.DEFINE || a.src(x.Key) != "_" || a.src(x.Value) != "param" || a.src(x.X) != "paramStr" {
+		return "", false
+	}
+	var ops []string
+	for _, st := range x.Body.List {
+		if o, ok := a.hookOp(st); ok {
+			ops = append(ops, o)
+		} else {
+			ops = append(ops, a.unknown("HookOp.unknown", st))
+		}
+	}
+	return "(.hookLoop " + leanList(ops) + ")", true
+}
+
+// bodyStmt: one top-level statement of an action method.
+func (a *actx) bodyStmt(s ast.Stmt) (string, bool) {
+	switch x := s.(type) {
+	case *ast.AssignStmt:
+		if len(x.Lhs) != 1 || len(x.Rhs) != 1 {
+			return "", false
+		}
+		lhs, rhs := a.src(x.Lhs[0]), a.src(x.Rhs[0])
+		if x.Tok == token.ASSIGN {
+			if f, ok := actFields[lhs]; ok {
+				switch {
+				case rhs == "append("+lhs+", r)":
+					return "(.appendField " + f + ")", true
+				case rhs == lhs+"[:0]":
+					return "(.truncField " + f + ")", true
+				case a.emptyRuneSlice(x.Rhs[0]):
+					return "(.resetField " + f + ")", true
+				}
+				return "", false
+			}
+			switch lhs {
+			case "p.dcs":
+				t, kv, ok := a.compLit(x.Rhs[0])
+				if ok && t == "DCS" && len(kv) == 0 {
+					return "(.resetField .dcs)", true
+				}
+				if ok && t == "DCS" && len(kv) == 2 && kv["Final"] != nil && kv["Data"] != nil && a.src(kv["Final"]) == "r" && a.emptyRuneSlice(kv["Data"]) {
+					return "(.declSeq .dcs)", true
+				}
+				return "", false
+			case "p.final":
+				if rhs == "rune(0)" {
+					return ".assignFinal0", true
+				}
+				return "", false
+			case "p.exit":
+				if fn, ok := exitFns[rhs]; ok {
+					return "(.setExit " + fn + ")", true
+				}
+				return "", false
+			case "p.dcs.Parameters":
+				if rhs == "params" {
+					return ".assignDcsParams", true
+				}
+				return "", false
+			}
+		}
+		if x.Tok == token.DEFINE {
+			if t, ok := seqTypes[lhs]; ok {
+				if a.isSeqLit(x.Rhs[0], t) {
+					return "(.declSeq " + seqVars[lhs] + ")", true
+				}
+				return "", false
+			}
+			if lhs == "paramStr" {
+				call, ok := x.Rhs[0].(*ast.CallExpr)
+				if ok && a.src(call.Fun) == "strings.Split" && len(call.Args) == 2 && a.src(call.Args[0]) == "string(p.params)" {
+					if bl, ok := call.Args[1].(*ast.BasicLit); ok && bl.Kind == token.STRING {
+						if sep, err := strconv.Unquote(bl.Value); err == nil && len(sep) == 1 && sep[0] < 0x80 {
+							return fmt.Sprintf("(.splitParams 0x%02X)", sep[0]), true
+						}
+					}
+				}
+				return "", false
+			}
+			if lhs == "params" {
+				if rhs == "make([]int, 0, len(paramStr))" {
+					return ".hookNewParams", true
+				}
+				return "", false
+			}
+		}
+		if o, ok := a.loopOp(s); ok {
+			return "(.op " + o + ")", true
+		}
+	case *ast.ExprStmt:
+		call, ok := x.X.(*ast.CallExpr)
+		if !ok || a.src(call.Fun) != "p.emit" || len(call.Args) != 1 {
+			return "", false
+		}
+		arg := a.src(call.Args[0])
+		switch arg {
+		case "esc", "csi":
+			return "(.emitLocal " + seqVars[arg] + ")", true
+		case "p.dcs":
+			return ".emitDcs", true
+		}
+		if t, kv, ok := a.compLit(call.Args[0]); ok && len(kv) == 1 {
+			if t == "OSC" && kv["Payload"] != nil && a.src(kv["Payload"]) == "p.oscData" {
+				return ".emitOsc", true
+			}
+			if t == "APC" && kv["Data"] != nil && a.src(kv["Data"]) == "string(p.apcData)" {
+				return ".emitApc", true
+			}
+		}
+	case *ast.IfStmt:
+		if x.Init != nil || x.Else != nil {
+			return "", false
+		}
+		b := x.Body.List
+		cond := a.src(x.Cond)
+		if call, ok := x.Cond.(*ast.CallExpr); ok && a.src(call.Fun) == "in" && len(call.Args) == 3 && a.src(call.Args[0]) == "r" {
+			lo, ok1 := intLit(call.Args[1])
+			hi, ok2 := intLit(call.Args[2])
+			if ok1 && ok2 && lo >= 0 && hi >= 0 && len(b) == 2 && a.src(b[0]) == "p.emit(C0(r))" && a.src(b[1]) == "return" {
+				return fmt.Sprintf("(.emitC0IfIn 0x%02X 0x%02X)", lo, hi), true
+			}
+			return "", false
+		}
+		switch cond {
+		case "len(p.intermediate) > 0":
+			if len(b) != 2 || a.src(b[1]) != "p.intermediate = p.intermediatePool.Get()" {
+				return "", false
+			}
+			for v, k := range seqVars {
+				if a.src(b[0]) == v+".Intermediate = p.intermediate" {
+					return "(.takeInter " + k + ")", true
+				}
+			}
+		case "len(p.params) == 0":
+			if len(b) == 1 && a.src(b[0]) == "return" {
+				return ".retIfNoParams", true
+			}
+			if len(b) == 2 && a.src(b[1]) == "return" {
+				for _, v := range []string{"esc", "csi"} {
+					if a.src(b[0]) == "p.emit("+v+")" {
+						return "(.emitRetIfNoParams " + seqVars[v] + ")", true
+					}
+				}
+			}
+		}
+	case *ast.ForStmt:
+		return a.paramLoop(s)
+	case *ast.RangeStmt:
+		if a.src(x.X) == "p.params" {
+			return a.paramLoop(s)
+		}
+		return a.hookLoop(s)
+	}
+	return "", false
+}
+
+// action methods: name → has the parameter (r rune)
+var actionMethods = []struct {
+	name  string
+	withR bool
+}{
+	{"collect", true}, {"param", true}, {"put", true}, {"oscPut", true}, {"clear", false}, {"execute", true},
+	{"escapeDispatch", true}, {"oscStart", false}, {"oscEnd", false}, {"unhook", false}, {"apcUnhook", false},
+	{"csiDispatch", true}, {"hook", true},
+}
+
+// paramSig prints a parameter list as `(n1 T1, n2 T2)`.
+func (a *actx) paramSig(fl *ast.FieldList) string {
+	var ps []string
+	if fl != nil {
+		for _, fld := range fl.List {
+			for _, n := range fld.Names {
+				ps = append(ps, n.Name+" "+a.src(fld.Type))
+			}
+			if len(fld.Names) == 0 {
+				ps = append(ps, a.src(fld.Type))
+			}
+		}
+	}
+	return "(" + strings.Join(ps, ", ") + ")"
+}
+
+func genActs(c *ex.Ctx, f *ast.File) {
+	a := &actx{c: c}
+	var sb strings.Builder
+	sb.WriteString("import VaxisModel.Model.ParserActs\n\nnamespace VaxisModel.Gen.ParserActs\nopen VaxisModel.Model.ParserActs\n\n")
+	for _, m := range actionMethods {
+		a.fn = m.name
+		var stmts []string
+		fd := ex.FindFunc(f, "Parser", m.name)
+		sig := "()"
+		if m.withR {
+			sig = "(r rune)"
+		}
+		switch {
+		case fd == nil || fd.Body == nil:
+			a.unrec = append(a.unrec, m.name+": method not found")
+			stmts = []string{"(.unknown \"method not found\")"}
+		case len(fd.Recv.List) != 1 || len(fd.Recv.List[0].Names) != 1 || fd.Recv.List[0].Names[0].Name != "p" ||
+			a.paramSig(fd.Type.Params) != sig || fd.Type.Results != nil:
+			a.unrec = append(a.unrec, m.name+": signature is not func (p *Parser) "+m.name+sig)
+			stmts = []string{"(.unknown \"unexpected signature\")"}
+		default:
+			for _, s := range fd.Body.List {
+				if t, ok := a.bodyStmt(s); ok {
+					stmts = append(stmts, t)
+				} else {
+					stmts = append(stmts, a.unknown(".unknown", s))
+				}
+			}
+		}
+		fmt.Fprintf(&sb, "/-- body of `func (p *Parser) %s%s` -/\ndef %sBody : List BStmt :=\n  [", m.name, sig, m.name)
+		sb.WriteString(strings.Join(stmts, ",\n   "))
+		sb.WriteString("]\n\n")
+	}
+	sb.WriteString("/-- statements of the action bodies that the extractor does not know (they appear as `.unknown` above) -/\ndef unrecognised : List String := [")
+	for i, u := range a.unrec {
+		if i > 0 {
+			sb.WriteString(",\n  ")
+		}
+		sb.WriteString(ex.LeanStr(u))
+	}
+	sb.WriteString("]\n\nend VaxisModel.Gen.ParserActs\n")
+	c.Write("ParserActs.lean", sb.String())
 }
